@@ -27,6 +27,8 @@ from .core import Unestablished
 MAXPATHS = 4000
 TRANSPARENT_METHODS = {"clone", "to_owned", "as_ref", "as_mut", "borrow", "borrow_mut", "to_vec", "into", "iter", "iter_mut",
                        "into_iter", "copied", "cloned", "as_slice", "as_mut_slice"}
+SHARED_VIEW_METHODS = {"iter", "clone", "to_owned", "as_ref", "borrow", "to_vec", "copied", "cloned", "as_slice", "into_iter", "chunks",
+                       "chunks_exact", "windows", "keys", "values", "get", "first", "last", "len", "par_iter", "par_chunks"}
 COMMUT = {"Add", "Mul", "Eq", "Ne", "And", "Or", "BitAnd", "BitOr", "BitXor"}
 SWAP = {"Gt": "Lt", "Ge": "Le"}
 
@@ -158,10 +160,14 @@ class Exec:
         return self.eval(self.fn["body"], self.entry())
 
     # ------------------------------------------------------------------ helpers
-    def _root_local(self, n):
+    def _root_local(self, n, for_mutation=True):
+        """the local a place / view expression is rooted in; None when the value is a copy or a shared view
+        (a `&mut` method on `x.iter()` or `x.clone()` advances / changes a temporary, not x)"""
         n = strip(n)
         while n is not None and n.get("k") in ("field", "index", "mcall"):
             if n["k"] == "mcall":
+                if for_mutation and n["name"] in SHARED_VIEW_METHODS:
+                    return None
                 if n["name"] in TRANSPARENT_METHODS or n["name"] in ("unwrap", "last_mut", "get_mut", "first_mut", "expect"):
                     n = strip(n["recv"])
                     continue
